@@ -28,7 +28,8 @@ Walks == <<
   <<"char", 0, 63>>,          \* 6-bit characters
   <<"hex", 0, 4095>>,         \* address text
   <<"arg", 0, 13121>>,        \* bearing: argument of a complex product (9^4 pairs x 2 scales)
-  <<"polar", 0, 1023>>        \* speed / track cells along the axes and the diagonal
+  <<"polar", 0, 1023>>,       \* speed / track cells along the axes and the diagonal
+  <<"mb05", 0, 4095>>         \* DF20: type code / altitude read off the assembled MB field
 >>
 
 VARIABLES w, x
@@ -78,6 +79,11 @@ TwosComplement ==
        LET sg == x \div 512  m == x % 512  v == TwosC(sg, m, 9) IN
        /\ v \in -512..511 /\ (sg = 1 <=> v < 0) /\ v % 512 = m
        /\ VRate60Fpm(sg, m) = 32 * v
+       \* the extreme codes, written out: 1 000000000 is -512 LSB, 1 111111111 is -1 LSB
+       /\ (x = 512 => v = -512 /\ VRate60Fpm(sg, m) = -16384)
+       /\ (x = 1023 => v = -1 /\ VRate60Fpm(sg, m) = -32 /\ AllOnes9(m))
+       /\ (x = 511 => v = 511 /\ VRate60Fpm(sg, m) = 16352 /\ AllOnes9(m))
+       /\ (AllOnes9(m) <=> x \in {511, 1023})
   /\ Kind = "twos10" =>
        LET sg == x \div 1024  m == x % 1024  v == TwosC(sg, m, 10) IN
        /\ v \in -1024..1023 /\ (sg = 1 <=> v < 0) /\ v % 1024 = m
@@ -154,6 +160,26 @@ Anchors ==
   /\ SpeedInCell(0, 10, 0, 0, 1) /\ ~SpeedInCell(8, 10, 0, 0, 1)
   /\ SpeedInCell(2 * 2000, 2, 1200, 1600, 4) /\ ~SpeedInCell(2 * 2004, 2, 1200, 1600, 4)
   /\ VRateSourceText(0) = "GNSS" /\ VRateSourceText(1) = "barometric"
+
+(* DF20 payload laid out as BDS 0,5: the type code and the altitude read   *)
+(* off the assembled frame are the codes it was built from; with the same  *)
+(* code in the header the label is allowed exactly for the BDS 0,5 type    *)
+(* codes and the meaningful altitudes, with a different one it is not      *)
+MB05 ==
+  Kind = "mb05" =>
+    LET tcx == 8 + (x % 16)
+        c == [df |-> 20, fs |-> x % 8, dr |-> x % 32, um |-> x % 64, ac |-> Expand12(x), id |-> 0,
+              aa |-> 4096 * x + 1, tc |-> tcx, ss |-> x % 4, saf |-> x % 2, alt |-> x,
+              t |-> x % 2, f |-> 1 - (x % 2), lat |-> 31 * x, lon |-> 131071 - x]
+        other == [c EXCEPT !.ac = Expand12((x + 32) % 4096)]
+    IN /\ WellFormed("l05", c)
+       /\ MBTypeCode("l05", c) = tcx /\ MBAlt12("l05", c) = x
+       /\ Label05Allowed(c) <=> (tcx \in (9..18) \cup (20..22) /\ Alt12Meaningful(x))
+       /\ Label05Allowed(c) <=> Label05AllowedAt(MBTypeCode("l05", c), MBAlt12("l05", c), c.ac)
+       /\ Label05Ok("l05", c, [bds05 |-> <<3, 0>>, alt05 |-> <<0, 0>>])
+       /\ Label05Allowed(c) => /\ Label05Ok("l05", c, [bds05 |-> <<3, 1>>, alt05 |-> <<1, AC12Ft(x)>>])
+                                /\ ~Label05Ok("l05", other, [bds05 |-> <<3, 1>>, alt05 |-> <<1, AC12Ft(x)>>])
+                                /\ (AC12Ft(x) > 25 => ~Label05Ok("l05", c, [bds05 |-> <<3, 1>>, alt05 |-> <<1, AC12Ft(x) - 25>>]))
 
 (* polar cells: the exact speed and bearing of the centre are inside the  *)
 (* cell, one full step away is outside                                     *)
